@@ -1247,10 +1247,13 @@ func exitActions(f *ssa.Function) []exitAct {
 			calls, esc := exitProg.callSitesOf(g)
 			return len(esc) == 0 && len(calls) == 1
 		}
-		if df.Parent() == nil && !singleUse(df) {
-			// a named module function deferred directly: the call itself is the action (its body is its own business)
+		if df.Parent() == nil {
+			// a named module function deferred directly: the call itself is an action …
 			out = append(out, exitAct{Callee: df, Instr: d, Defer: d})
-			continue
+			if !singleUse(df) {
+				continue
+			}
+			// … and when it is a closure body that was given a name, so are the things it does
 		}
 		var expand func(g *ssa.Function, depth int)
 		expand = func(g *ssa.Function, depth int) {
